@@ -10,7 +10,7 @@ NOTES = {
  'c17-15': 'round 5; missed at first (the interrupt status register was never read between a tick and its acknowledgement); caught after C17 histories gained non-acknowledging reads',
  'c14-13': 'round 5; missed at first (DUART histories never ran the processor); caught after the masked-processor slice (NOP sled at priority level 15 with arrivals) was added to C14',
  'c07-14': 'round 5; missed at first (a presented request was never withdrawn by a disable command before delivery); caught after those events were added to C07 (and mon_c07 reads the last interrupt poll)',
- 'c06-13': 'round 5; caught through the translated dispatch arms (no failing input needed by C06; C05 exercises the conditional returns)',
+ 'c06-13': 'round 5; at first caught only through the translated dispatch arms (no failing input found by C06); a failing input is found since the conditional-return slice (every condition x every flag combination) was added to C06',
  'c08-10': 'round 4; missed at first (no case programmed remote loop-back, MR2 bits 7:6 = 11); caught after the mode x receiver-enable slice was added to C08',
  'c09-11': 'round 4; missed at first (no transmit history with four unread characters on the same channel); caught after the transmit-with-receive-backlog slice was added to C09',
  'c09-12': 'round 4; missed at first (loop-back was only exercised with the receiver enabled); caught after the mode x receiver-state slice was added to C09',
